@@ -1,6 +1,6 @@
 (** Property C14 -- no scrolled-off line is lost, duplicated, reordered or altered.
     Only pinned statements, closed by [exact], with their assumptions printed. *)
-From Avt Require Import Oracles.Rel Proofs.Inv Proofs.ParamDT Proofs.ParamChop.
+From Avt Require Import Oracles.Rel Proofs.Inv Proofs.ParamDT Proofs.ParamChop Proofs.Collector.
 
 (** For every size, every limit L and every session of feed_str calls from the initial state without RIS (no resize) that ends on the primary screen: the lines handed out through Changes.scrollback over the session, followed by the final lines(), are exactly the lines() of the unlimited-scrollback run - same order, each once, cell for cell. *)
 Theorem C14_stream : forall c r L ss vI outsI vL outsL, session_ris_free (vt_new c r None) ss -> run_session (vt_new c r None) ss = Ok (vI, outsI) -> run_session (vt_new c r (Some L)) ss = Ok (vL, outsL) -> active (vterm vL) = Primary -> concat (map o_drained outsL) ++ lines (buf (vterm vL)) = lines (buf (vterm vI)).
@@ -19,3 +19,10 @@ Theorem C14_flush : forall t t1 ls t2 dr, changes t = (t1, ls) -> term_gc t1 = O
 Proof. exact C14_flush. Qed.
 Check C14_flush : forall t t1 ls t2 dr, changes t = (t1, ls) -> term_gc t1 = Ok (t2, dr) -> (active t = Primary -> lines (buf t) = dr ++ lines (buf t2)) /\ (active t = Alternate -> other t2 = other t /\ dr = []) /\ view (buf t2) = view (buf t).
 Print Assumptions C14_flush.
+
+(** consequently util::TextCollector yields the same text for every scrollback limit (modulo trailing empty lines: an empty
+    line handed out early cannot be taken back; flush() itself strips trailing empty lines) *)
+Theorem C14_collector : forall c r L ss vI outsI vL outsL, session_ris_free (vt_new c r None) ss -> run_session (vt_new c r None) ss = Ok (vI, outsI) -> run_session (vt_new c r (Some L)) ss = Ok (vL, outsL) -> active (vterm vL) = Primary -> strip_empty_tail (collector_total outsL (lines (buf (vterm vL)))) = strip_empty_tail (collector_total outsI (lines (buf (vterm vI)))).
+Proof. exact C14_collector. Qed.
+Check C14_collector : forall c r L ss vI outsI vL outsL, session_ris_free (vt_new c r None) ss -> run_session (vt_new c r None) ss = Ok (vI, outsI) -> run_session (vt_new c r (Some L)) ss = Ok (vL, outsL) -> active (vterm vL) = Primary -> strip_empty_tail (collector_total outsL (lines (buf (vterm vL)))) = strip_empty_tail (collector_total outsI (lines (buf (vterm vI)))).
+Print Assumptions C14_collector.
